@@ -52,6 +52,7 @@ USERCATS = [
     ("P1", ["@pat0"]), ("P2", ["lit", "@pat0"]), ("P3", ["@pat0", "@pat1", "zz"]),
 ]
 DUCKS = ["str", "torch", "numpy", "tf"]
+GEN_USERCATS = {}
 
 
 def instances(tier, seed):
@@ -62,6 +63,16 @@ def instances(tier, seed):
     for cat, _ in USERCATS:
         for duck in ("str", "torch"):
             out.append(("core", dict(kind="user", cat=cat, duck=duck, maxlen=8)))
+    if tier == "thorough":
+        rng = random.Random(seed)
+        names = ["float32", "f", "ff", "int", "uint8", "u", "", "a.b", "x y", "bool_"]
+        for i in range(40):
+            members = []
+            for _ in range(rng.randrange(1, 5)):
+                members.append(f"@pat{rng.randrange(3)}" if rng.random() < 0.4 else rng.choice(names))
+            GEN_USERCATS[f"G{i}"] = members
+            for duck in DUCKS:
+                out.append(("core", dict(kind="user", cat=f"G{i}", duck=duck, maxlen=9, members=members)))
     out.append(("core", dict(kind="bridge", order="forward")))
     out.append(("core", dict(kind="bridge", order="reverse")))
     out.append(("core", dict(kind="bridge", order="shuffled")))
@@ -212,7 +223,7 @@ def scenario(inst, V):
                 cat=inst["cat"], duck=inst["duck"])
         return dict(got=str(got))
     # user categories with uninterpreted patterns: patch the type test for re.Pattern
-    members = dict(USERCATS)[inst["cat"]]
+    members = inst.get("members") or dict(USERCATS)[inst["cat"]]
     Cat = user_category(inst["cat"], members)
     real_re = at.re
 
